@@ -32,7 +32,13 @@ Harness
   mpirun (0 without);
 * pre/post commands are symbolic in the case (`mark:T`, `true`, `false`,
   `export:K=V`) and rendered to shell: a mark appends `<rank>:<sig>:T` to the
-  marker file.
+  marker file;
+* launchers: FORK with 1 rank, MPIRUN with 2 and 3 ranks (thorough: also 1).
+  Wherever the exec script switches on $RP_RANK (per-rank pre_exec /
+  post_exec dicts, CUDA_VISIBLE_DEVICES of the slots) there are 3-rank
+  inputs whose first and last rank agree while the middle one differs, plus
+  first == middle, middle == last, all equal and lists of different length
+  for the GPU ids (`GPU_MAP`).
 
 Reference
 ---------
@@ -150,14 +156,26 @@ ENV_NAMES = ['C10_A', 'c10_b']
 
 PER_RANK  = {'0': 'mark:R0', '1': 'mark:R1'}
 
+# three ranks, first and last rank with the same content, the middle one with
+# another (wherever the script switches on $RP_RANK, equal ends must not be
+# taken for "all ranks equal")
+PER_RANK3 = {'0': 'mark:RA', '1': 'mark:RB', '2': 'mark:RA'}
+
 PRE_CORE  = [[],
              ['mark:A'],
              ['export:C10_X=1'],
              ['false'],
              [dict(PER_RANK)],
-             ['mark:A', dict(PER_RANK), 'mark:B']]
+             ['mark:A', dict(PER_RANK), 'mark:B'],
+             [dict(PER_RANK3)]]
 
 PRE_FULL  = PRE_CORE + [
+             ['mark:A', dict(PER_RANK3), 'mark:B'],
+             [{'0': 'export:C10_X=a', '1': 'export:C10_X=b',
+               '2': 'export:C10_X=a'}],
+             [{'0': 'mark:RA', '1': 'mark:RA', '2': 'mark:RB'}],
+             [{'0': 'mark:RB', '1': 'mark:RA', '2': 'mark:RA'}],
+             [{'0': 'mark:RA', '1': 'false', '2': 'mark:RA'}],
              ['true'],
              ['mark:A', 'mark:B'],
              ['mark:A', 'false', 'mark:B'],
@@ -168,18 +186,22 @@ PRE_FULL  = PRE_CORE + [
              [{'int_keys': dict(PER_RANK)}]]
 
 POST_RANK = {'0': 'mark:S0', '1': 'mark:S1'}
+POST_RANK3 = {'0': 'mark:SA', '1': 'mark:SB', '2': 'mark:SA'}
 
 POST_CORE = [[],
              ['mark:Z'],
              ['false'],
-             ['mark:Y', dict(POST_RANK)]]
+             ['mark:Y', dict(POST_RANK)],
+             [dict(POST_RANK3)]]
 
 POST_FULL = POST_CORE + [
              ['true'],
              ['mark:Y', 'mark:Z'],
              ['mark:Y', 'false', 'mark:Z'],
              [dict(POST_RANK)],
-             [{'1': 'false'}]]
+             [{'1': 'false'}],
+             ['mark:Y', dict(POST_RANK3), 'mark:Z'],
+             [{'0': 'mark:SA', '1': 'false', '2': 'mark:SA'}]]
 
 
 def _arg_lists(atoms, pairs):
@@ -220,7 +242,9 @@ FIELDS = {
                ['', 'my.err', 'ABS', 'both.log'], None),
     'pre'   : (PRE_CORE,  PRE_FULL,  None),
     'post'  : (POST_CORE, POST_FULL, None),
-    'gpus'  : ([0, 1], [0, 1, 2, 0.5], None),
+    # number of GPUs per rank (ids per rank: GPU_MAP) or a named id pattern
+    'gpus'  : ([0, 1, 'aba'],
+               [0, 1, 2, 0.5, 'aba', 'aab', 'baa', 'aaa', 'ABA'], None),
     'cpr'   : ([1, 2], [1, 2], None),
     'sync'  : ([False, True], [False, True], None),
     'exit'  : ([0, 3], [0, 3], None),
@@ -235,14 +259,32 @@ BASE = {'lm': 'FORK', 'ranks': 1,
         'sync': False, 'exit': 0, 'name': None, 'sbox': 'in',
         'start': 'popen'}
 
-LAUNCHERS_QUICK    = [('FORK', 1), ('MPIRUN', 2)]
-LAUNCHERS_THOROUGH = [('FORK', 1), ('MPIRUN', 2), ('MPIRUN', 1)]
+LAUNCHERS_QUICK    = [('FORK', 1), ('MPIRUN', 2), ('MPIRUN', 3)]
+LAUNCHERS_THOROUGH = [('FORK', 1), ('MPIRUN', 2), ('MPIRUN', 3), ('MPIRUN', 1)]
 
-# GPU indices per rank (deliberately different from the rank ids)
-GPU_MAP = {0  : [[], []],
-           1  : [[1], [3]],
-           2  : [[1, 2], [3, 0]],
-           0.5: [[2], [2]]}
+# value of the `gpus` field -> (gpus_per_rank, GPU ids of the slots of rank
+# 0, 1, 2).  Numbers: ids deliberately different from the rank ids.  Named
+# patterns: node-local ids which restart on every node, so that ranks share
+# id lists in every arrangement (first == last != middle, first == middle,
+# middle == last, all equal, lists of different length)
+GPU_MAP = {0    : (0,   [[],     [],     []    ]),
+           1    : (1,   [[1],    [3],    [0]   ]),
+           2    : (2,   [[1, 2], [3, 0], [2, 1]]),
+           0.5  : (0.5, [[2],    [2],    [2]   ]),
+           'aba': (1,   [[0],    [1],    [0]   ]),
+           'aab': (1,   [[0],    [0],    [1]   ]),
+           'baa': (1,   [[1],    [0],    [0]   ]),
+           'aaa': (1,   [[1],    [1],    [1]   ]),
+           'ABA': (2,   [[0, 1], [2],    [0, 1]])}
+
+
+def gpr(case):
+    '''gpus_per_rank of the description'''
+    return GPU_MAP[case['gpus']][0]
+
+
+def gpu_ids(case, rank):
+    return GPU_MAP[case['gpus']][1][rank]
 
 
 # ------------------------------------------------------------------------------
@@ -302,6 +344,7 @@ def shape(spec):
             s = 'dict'
             if 'int_keys' in entry                       : s += '-intkeys'
             if '0' not in d                              : s += '-partial'
+            if '2' in d                                  : s += '-3ranks'
             if any(isinstance(v, list) for v in d.values()): s += '-list'
             cmds = [c for v in d.values() for c in _as_list(v)]
             if any(c == 'false' for c in cmds)           : s += '-false'
@@ -591,9 +634,9 @@ class World(object):
                 'pre_exec_sync' : case['sync'],
                 'ranks'         : case['ranks'],
                 'cores_per_rank': case['cpr'],
-                'gpus_per_rank' : case['gpus'],
+                'gpus_per_rank' : gpr(case),
                 'sandbox'       : p['sbox']}
-        if case['gpus']  : desc['gpu_type'] = rpc.CUDA
+        if gpr(case)     : desc['gpu_type'] = rpc.CUDA
         if p['stdout']   : desc['stdout']   = p['stdout']
         if p['stderr']   : desc['stderr']   = p['stderr']
         if case['name']  : desc['name']     = case['name']
@@ -623,14 +666,14 @@ class World(object):
 
         slots = list()
         for r in range(case['ranks']):
-            occ = case['gpus'] if 0 < case['gpus'] < 1 else 1.0
+            occ = gpr(case) if 0 < gpr(case) < 1 else 1.0
             slots.append({'node_name' : 'localhost',
                           'node_index': 0,
                           'cores'     : [{'index': r * case['cpr'] + c,
                                           'occupation': 1.0}
                                          for c in range(case['cpr'])],
                           'gpus'      : [{'index': g, 'occupation': occ}
-                                         for g in GPU_MAP[case['gpus']][r]],
+                                         for g in gpu_ids(case, r)],
                           'lfs'       : 0,
                           'mem'       : 0})
 
@@ -875,7 +918,7 @@ def check(world, case, obs):
                                              ('post', case['post']))
                            for m in simulate_all(spec, q))
 
-            others  = set().union(*[tags(q) for q in range(max(ranks, 2))
+            others  = set().union(*[tags(q) for q in range(max(ranks, 3))
                                             if q != r]) - tags(r)
             foreign = [m for m in got if m in others]
             if pre_failed and 'exec' in got:
@@ -943,8 +986,8 @@ def check(world, case, obs):
                                 'does not describe'
                                 % (r, {k: env[k] for k in alien}))
 
-        if case['gpus']:
-            want_cvd = ','.join(str(g) for g in GPU_MAP[case['gpus']][r])
+        if gpr(case):
+            want_cvd = ','.join(str(g) for g in gpu_ids(case, r))
             if env.get('CUDA_VISIBLE_DEVICES') != want_cvd:
                 fail('gpu-assignment',
                      'rank %d: CUDA_VISIBLE_DEVICES %r, slot GPUs %s'
@@ -959,7 +1002,7 @@ def check(world, case, obs):
         rp_num = {'RP_RANK'          : r,
                   'RP_RANKS'         : ranks,
                   'RP_CORES_PER_RANK': case['cpr'],
-                  'RP_GPUS_PER_RANK' : case['gpus']}
+                  'RP_GPUS_PER_RANK' : gpr(case)}
         rp_dir = {'RP_TASK_SANDBOX'    : p['sbox'],
                   'RP_PILOT_SANDBOX'   : world.psbox,
                   'RP_SESSION_SANDBOX' : world.ssbox,
@@ -1104,6 +1147,8 @@ def candidates(case):
         yield dict(case, lm='FORK', ranks=1)
         if case['ranks'] > 1:
             yield dict(case, ranks=1)
+        if case['ranks'] > 2:
+            yield dict(case, ranks=case['ranks'] - 1)
     for f in FIELDS:
         if case[f] != BASE[f]:
             yield dict(case, **{f: copy.deepcopy(BASE[f])})
@@ -1421,12 +1466,14 @@ def run(ctx):
                  'stdout / stderr (default, relative, absolute, one file '
                  'for both), pre_exec '
                  '(%d lists: none, true, export, false, marks, per-rank '
+                 'dicts for 3 ranks with first == last != middle content, '
                  'dicts with str / int keys, list values, partial, mixed), '
                  'post_exec (%d lists), GPUs per rank (%s, CUDA), cores per '
                  'rank, pre_exec_sync, exit code 0/3, task name, sandbox in '
                  '/ outside the pilot sandbox, launch script started by '
                  'Popen._launch_task / from another directory.  Not enumerated: '
-                 'pre_exec_sync with a pre_exec failing on one of two ranks '
+                 'pre_exec_sync with a pre_exec failing on some but not all '
+                 'ranks '
                  '(barrier cannot complete without a real mpirun).  Each '
                  'case = generated launch + exec scripts run by bash after '
                  'the earlier cases of the same worker on one executor.  '
@@ -1445,7 +1492,9 @@ def run(ctx):
                     '' if ctx.quick else '; plus %d further values alone'
                     % len(ENV_EXTRA),
                     len(PRE_FULL), len(POST_FULL),
-                    '0, 1, 2, 0.5'))
+                    '0, 1, 2, 0.5 with distinct ids per rank, and the id '
+                    'patterns [0][1][0], [0][0][1], [1][0][0], [1][1][1], '
+                    '[0,1][2][0,1] of ranks 0-2'))
     ctx.set(distinct_nontrivial=len(ctx.outcomes))
     ctx.assume('`$VAR` and back-tick expansion in arguments, environment '
                'values and the executable are a documented feature '
